@@ -1,5 +1,326 @@
 import NibabelModel.Model.C14
-/-! Props/C14 — the property theorems for C14 (statements + proofs; helper lemmas live in Lemmas/). -/
+import NibabelModel.Lemmas.C14
+/-! Props/C14 — the property theorems for C14 "concurrent reads through a shared file handle never mix up
+    data" (statements + short proofs; the work is in Lemmas/C14.lean).
+
+    Everything is UNBOUNDED: `State.threads : Tid → Thread` gives every natural number a thread (any number
+    of them may have a non-empty program), programs are arbitrary lists of the locked shape `wf`, schedules
+    are arbitrary lists of thread ids (any interleaving, any number of pre-emptions, grants to blocked or
+    finished threads included). -/
 namespace Nb.C14
+
+/-- states reachable from an initial state (no lock held) whose programs all have the locked shape w.r.t.
+    lock `L` -/
+def Reachable (L : Nat) (file : List Byte) (s : State) : Prop :=
+  ∃ (progs : Tid → List Action) (nh : Nat) (p0 : Nat → Nat) (sched : List Tid),
+    (∀ t, wf L 0 false (progs t) = true) ∧ s = runS file (State.init progs nh p0) sched
+
+theorem inv_init (L : Nat) (progs : Tid → List Action) (nh : Nat) (p0 : Nat → Nat)
+    (h : ∀ t, wf L 0 false (progs t) = true) : Inv L (State.init progs nh p0) :=
+  ⟨fun u => by simpa [State.init, dep] using h u, fun u hu => by simp [State.init] at hu⟩
+
+/-- The lock-discipline invariant holds in every reachable state. -/
+theorem inv_reachable (L : Nat) (file : List Byte) (s : State) (h : Reachable L file s) : Inv L s := by
+  obtain ⟨progs, nh, p0, sched, hwf, rfl⟩ := h
+  exact inv_runS L file sched _ (inv_init L progs nh p0 hwf)
+
+def Action.isFileOp : Action → Bool
+  | .seek _ => true | .seekEnd => true | .tell => true | .read _ => true | _ => false
+
+/-- In every reachable state a thread whose NEXT action touches the file holds the lock (so at most one
+    thread is ever inside a `seek … read` window). -/
+theorem file_op_holds_lock (L : Nat) (file : List Byte) (s : State) (h : Reachable L file s)
+    (u : Tid) (a : Action) (rest : List Action) (hp : (s.threads u).prog = a :: rest)
+    (ha : a.isFileOp = true) : s.owner L = some u ∧ 1 ≤ s.count L := by
+  have hi := inv_reachable L file s h
+  have hu := hi.wf u
+  rw [hp] at hu
+  by_cases ho : s.owner L = some u
+  · exact ⟨ho, hi.cnt u ho⟩
+  · exfalso
+    cases a <;> simp [Action.isFileOp] at ha <;> simp [wf, dep, ho] at hu
+
+/-- `mutex_invariant`: thread `t` is about to `seek o` and then `read n`.  After its seek, let the OTHER
+    threads run for as long and in whatever order they like (`others`: any list of thread ids ≠ t).
+    Then `t` still holds the lock, the position of its handle is still `o`, none of the others' steps was a
+    file operation, and `t`'s read returns exactly `file[o, o+n)`. -/
+theorem mutex_invariant (L : Nat) (file : List Byte) (s : State) (h : Reachable L file s)
+    (t : Tid) (o n : Nat) (rest : List Action)
+    (hp : (s.threads t).prog = .seek o :: .read n :: rest)
+    (others : List Tid) (hoth : ∀ u ∈ others, u ≠ t) :
+    let s1 := (step file s t).1
+    let s2 := runS file s1 others
+    s2.owner L = some t ∧ s2.pos (s2.threads t).cur = o ∧
+    (∀ x ∈ trace file s1 others, x.2.data = none) ∧
+    (step file s2 t).2 = .read (s.threads t).cur n (slice file o n) := by
+  intro s1 s2
+  have hi := inv_reachable L file s h
+  have hown := (file_op_holds_lock L file s h t _ _ hp rfl).1
+  have hi1 : Inv L s1 := inv_step L file s hi t
+  have e1 : s1 = { s with pos := upd s.pos (s.threads t).cur o,
+                          threads := upd s.threads t { (s.threads t) with prog := .read n :: rest } } := by
+    simp only [s1, step, hp]
+  have hown1 : s1.owner L = some t := by rw [e1]; exact hown
+  have f := frame_run L file t others s1 hi1 hown1 hoth
+  have hth : s2.threads t = { (s.threads t) with prog := .read n :: rest } := by
+    show (runS file s1 others).threads t = _
+    rw [f.2.2.2.1, e1]; simp
+  have hpos : s2.pos = upd s.pos (s.threads t).cur o := by
+    show (runS file s1 others).pos = _
+    rw [f.2.2.1, e1]
+  refine ⟨f.1, ?_, f.2.2.2.2, ?_⟩
+  · rw [hth, hpos]; simp
+  · simp only [step, hth, hpos]; simp
+
+/-- `reads_decompose` (the core of `reads_correct`): for EVERY schedule, the file events thread `t` has seen
+    so far, followed by the single-threaded meaning of what `t` still has to do, equal the single-threaded
+    meaning of `t`'s whole program. -/
+theorem reads_decompose (L : Nat) (file : List Byte) (s : State) (h : Reachable L file s)
+    (sched : List Tid) (t : Tid) :
+    dataProj t (trace file s sched) ++
+      solo file ((runS file s sched).pos ((runS file s sched).threads t).cur) ((runS file s sched).threads t).prog
+    = solo file (s.pos (s.threads t).cur) (s.threads t).prog :=
+  run_solo L file t sched s (inv_reachable L file s h)
+
+/-- `reads_correct`: under any schedule and any number of threads, the sequence of seeks and reads (with the
+    DATA each read returned) that thread `t` observes is a prefix of what it observes running alone. -/
+theorem reads_correct (L : Nat) (file : List Byte) (s : State) (h : Reachable L file s)
+    (sched : List Tid) (t : Tid) :
+    dataProj t (trace file s sched) <+: solo file (s.pos (s.threads t).cur) (s.threads t).prog :=
+  ⟨_, reads_decompose L file s h sched t⟩
+
+/-- … and once `t` has finished it has observed exactly its single-threaded events. -/
+theorem reads_complete (L : Nat) (file : List Byte) (s : State) (h : Reachable L file s)
+    (sched : List Tid) (t : Tid) (hfin : ((runS file s sched).threads t).prog = []) :
+    dataProj t (trace file s sched) = solo file (s.pos (s.threads t).cur) (s.threads t).prog := by
+  have := reads_decompose L file s h sched t
+  rw [hfin] at this
+  simpa [solo] using this
+
+/-- Each thread's result equals its single-threaded result: run the threads concurrently under ANY schedule
+    `sched`, and run thread `t` entirely alone (all other programs empty) under any schedule `sched1`; if `t`
+    finishes in both, it saw the same seeks and the same data in both. -/
+theorem concurrent_eq_single_threaded (L : Nat) (file : List Byte) (progs : Tid → List Action) (nh : Nat)
+    (p0 : Nat → Nat) (hwf : ∀ t, wf L 0 false (progs t) = true) (t : Tid) (sched sched1 : List Tid)
+    (hfin : ((runS file (State.init progs nh p0) sched).threads t).prog = [])
+    (hfin1 : ((runS file (State.init (fun u => if u = t then progs t else []) nh p0) sched1).threads t).prog = []) :
+    dataProj t (trace file (State.init progs nh p0) sched) =
+    dataProj t (trace file (State.init (fun u => if u = t then progs t else []) nh p0) sched1) := by
+  have hwf1 : ∀ u, wf L 0 false ((fun u => if u = t then progs t else []) u) = true := by
+    intro u; by_cases hu : u = t <;> simp [hu, hwf t, wf]
+  have a := reads_complete L file (State.init progs nh p0) ⟨progs, nh, p0, [], hwf, rfl⟩ sched t hfin
+  have b := reads_complete L file (State.init (fun u => if u = t then progs t else []) nh p0)
+    ⟨_, nh, p0, [], hwf1, rfl⟩ sched1 t hfin1
+  rw [a, b]
+  simp [State.init]
+
+/-! ### the programs nibabel produces have the locked shape, and their single-threaded meaning is
+    "every read returns `file[o, o+n)`" -/
+
+theorem wf_lockedSegs (L : Nat) (segs : List (Nat × Nat)) (p : List Action) :
+    wf L 0 false (lockedSegs L segs ++ p) = wf L 0 false p := by
+  induction segs with
+  | nil => simp [lockedSegs]
+  | cons sg r ih =>
+    have : lockedSegs L (sg :: r) = [.acquire L, .seek sg.1, .read sg.2, .release L] ++ lockedSegs L r := by
+      simp [lockedSegs]
+    rw [this]
+    simp only [lockedSegs] at ih
+    simp [wf, lockedSegs, ih]
+
+theorem wf_lockedWhole (L : Nat) (m r : Bool) (off n : Nat) (p : List Action) :
+    wf L 0 false (lockedWhole L m r off n ++ p) = wf L 0 false p := by
+  cases m <;> cases r <;> simp [lockedWhole, wf]
+
+theorem wf_getFileobjPersist (L : Nat) (p : List Action) :
+    wf L 0 false (getFileobjPersist ++ p) = wf L 0 false p := by
+  simp [getFileobjPersist, wf, Action.slotOnly]
+
+/-- expected events of `read_segments`: for each segment a seek to its offset and a read that returns
+    exactly that segment of the file -/
+def segEvents (file : List Byte) (segs : List (Nat × Nat)) : List DEv :=
+  segs.flatMap (fun sg => [.seek sg.1, .read sg.2 (slice file sg.1 sg.2)])
+
+def segEnd (file : List Byte) (x : Nat) (segs : List (Nat × Nat)) : Nat :=
+  segs.foldl (fun _ sg => sg.1 + (slice file sg.1 sg.2).length) x
+
+theorem solo_lockedSegs (file : List Byte) (l : Nat) (segs : List (Nat × Nat)) (p : List Action) :
+    ∀ x, solo file x (lockedSegs l segs ++ p) = segEvents file segs ++ solo file (segEnd file x segs) p := by
+  induction segs with
+  | nil => intro x; simp [lockedSegs, segEvents, segEnd]
+  | cons sg r ih =>
+    intro x
+    have e : lockedSegs l (sg :: r) = [.acquire l, .seek sg.1, .read sg.2, .release l] ++ lockedSegs l r := by
+      simp [lockedSegs]
+    rw [e]
+    simp only [List.cons_append, List.nil_append, solo]
+    rw [ih]
+    simp [segEvents, segEnd]
+
+/-- expected events of the whole-array path -/
+def wholeEvents (file : List Byte) (m r : Bool) (off n : Nat) : List DEv :=
+  (if m then [.seekEnd, .tell file.length] else []) ++
+  (if r then [.seek off, .read n (slice file off n)] else [])
+
+theorem solo_lockedWhole (file : List Byte) (l : Nat) (m r : Bool) (off n : Nat) (p : List Action)
+    (hp : wf l 0 false p = true) (x : Nat) :
+    solo file x (lockedWhole l m r off n ++ p) = wholeEvents file m r off n ++ solo file 0 p := by
+  cases m <;> cases r <;> simp [lockedWhole, wholeEvents, solo] <;> exact solo_indep l file p 0 _ _ hp
+
+/-- one read request as nibabel executes it on a proxy whose lock is `L` over an open handle:
+    through the proxy itself or through a `copy()` (whose `__init__` made the fresh lock `fresh`) -/
+inductive Piece where
+  | segs (viaCopy : Bool) (fresh : Nat) (segs : List (Nat × Nat))
+  | whole (viaCopy : Bool) (fresh : Nat) (memmapTry reads : Bool) (off n : Nat)
+  | openPersist
+
+def Piece.lock (L : Nat) (viaCopy : Bool) (fresh : Nat) : Nat := if viaCopy then copyLock true L fresh else L
+
+def Piece.prog (L : Nat) : Piece → List Action
+  | .segs c f sg => lockedSegs (Piece.lock L c f) sg
+  | .whole c f m r off n => lockedWhole (Piece.lock L c f) m r off n
+  | .openPersist => getFileobjPersist
+
+def Piece.events (file : List Byte) : Piece → List DEv
+  | .segs _ _ sg => segEvents file sg
+  | .whole _ _ m r off n => wholeEvents file m r off n
+  | .openPersist => []
+
+/-- `copy()` of a proxy over an open handle uses the source's lock, whatever lock its constructor made -/
+theorem copy_shares_lock (L fresh : Nat) (c : Bool) : Piece.lock L c fresh = L := by
+  cases c <;> simp [Piece.lock, copyLock]
+
+theorem wf_pieces (L : Nat) (ps : List Piece) : wf L 0 false (ps.flatMap (Piece.prog L)) = true := by
+  induction ps with
+  | nil => simp [wf]
+  | cons a r ih =>
+    simp only [List.flatMap_cons]
+    cases a <;> simp only [Piece.prog, copy_shares_lock]
+    · rw [wf_lockedSegs]; exact ih
+    · rw [wf_lockedWhole]; exact ih
+    · rw [wf_getFileobjPersist]; exact ih
+
+theorem solo_pieces (L : Nat) (file : List Byte) (ps : List Piece) :
+    ∀ x, solo file x (ps.flatMap (Piece.prog L)) = ps.flatMap (Piece.events file) := by
+  induction ps with
+  | nil => intro x; simp [solo]
+  | cons a r ih =>
+    intro x
+    simp only [List.flatMap_cons]
+    cases a <;> simp only [Piece.prog, Piece.events, copy_shares_lock]
+    · rw [solo_lockedSegs, ih]
+    · rw [solo_lockedWhole _ _ _ _ _ _ _ (wf_pieces L r), ih]
+    · simp [getFileobjPersist, solo, ih]
+
+/-- `nibabel_reads_correct`: ANY number of threads, each performing ANY list of read requests (sliced reads
+    with any segment lists, whole-array reads, with or without the lazily opened persistent opener, through
+    the proxy or through its `copy()`), under ANY schedule: every thread's seeks and reads are a prefix of
+    "seek o; read n ↦ file[o, o+n)" for its own segments in its own order, and all of it once it finished. -/
+theorem nibabel_reads_correct (L : Nat) (file : List Byte) (pieces : Tid → List Piece) (nh : Nat)
+    (p0 : Nat → Nat) (sched : List Tid) (t : Tid) :
+    let s0 := State.init (fun u => (pieces u).flatMap (Piece.prog L)) nh p0
+    dataProj t (trace file s0 sched) <+: (pieces t).flatMap (Piece.events file) ∧
+    (((runS file s0 sched).threads t).prog = [] →
+      dataProj t (trace file s0 sched) = (pieces t).flatMap (Piece.events file)) := by
+  intro s0
+  have hr : Reachable L file s0 := ⟨_, nh, p0, [], fun u => wf_pieces L (pieces u), rfl⟩
+  have e : solo file (s0.pos (s0.threads t).cur) (s0.threads t).prog = (pieces t).flatMap (Piece.events file) := by
+    simp only [s0, State.init]; exact solo_pieces L file (pieces t) _
+  refine ⟨?_, fun hfin => ?_⟩
+  · rw [← e]; exact reads_correct L file s0 hr sched t
+  · rw [← e]; exact reads_complete L file s0 hr sched t hfin
+
+/-! ### what the lock buys: counterexamples for the broken disciplines (concrete 2-thread schedules) -/
+
+def cexFile : List Byte := [10, 11, 12, 13, 14, 15, 16, 17]
+/-- two threads over ONE open handle (handle 0) -/
+def cexInit (p0 p1 : List Action) : State := State.init (fun t => [p0, p1].getD t []) 1
+
+/-- `_NullLock` (acquire/release removed): thread 0 finishes, but its read at offset 0 returned the bytes at
+    offset 4 — thread 1's seek slipped in between thread 0's seek and read. -/
+theorem no_lock_counterexample :
+    let p0 := unlocked (lockedSegs 0 [(0, 2)])
+    let p1 := unlocked (lockedSegs 0 [(4, 2)])
+    let s0 := cexInit p0 p1
+    ((runS cexFile s0 [0, 1, 0, 1]).threads 0).prog = [] ∧
+    dataProj 0 (trace cexFile s0 [0, 1, 0, 1]) = [.seek 0, .read 2 [14, 15]] ∧
+    solo cexFile 0 p0 = [.seek 0, .read 2 [10, 11]] := by decide
+
+/-- lock released between seek and read (seek and read in DIFFERENT critical sections): same failure -/
+theorem split_lock_counterexample :
+    let p0 := splitSegs 0 [(0, 2)]
+    let p1 := splitSegs 0 [(4, 2)]
+    let s0 := cexInit p0 p1
+    ((runS cexFile s0 [0, 0, 0, 1, 1, 1, 0, 0, 0]).threads 0).prog = [] ∧
+    dataProj 0 (trace cexFile s0 [0, 0, 0, 1, 1, 1, 0, 0, 0]) = [.seek 0, .read 2 [14, 15]] ∧
+    solo cexFile 0 p0 = [.seek 0, .read 2 [10, 11]] ∧
+    wf 0 0 false p0 = false := by decide
+
+/-- `copy()` keeping the fresh lock of its constructor although it shares the handle (what `copyLock` would
+    give with `hasFh = false`): the two proxies no longer exclude each other -/
+theorem copy_new_lock_counterexample :
+    let p0 := lockedSegs 0 [(0, 2)]
+    let p1 := lockedSegs (copyLock false 0 1) [(4, 2)]
+    let s0 := cexInit p0 p1
+    ((runS cexFile s0 [0, 0, 1, 1, 0, 0]).threads 0).prog = [] ∧
+    dataProj 0 (trace cexFile s0 [0, 0, 1, 1, 0, 0]) = [.seek 0, .read 2 [14, 15]] ∧
+    solo cexFile 0 p0 = [.seek 0, .read 2 [10, 11]] := by decide
+
+/-! ### non-vacuity: the hypotheses of the theorems above are satisfiable by concrete, non-trivial values -/
+
+/-- a sliced read of two segments against a whole-array read through the copy, plus a thread that nests the
+    lock (RLock re-entrancy) and uses the lazily opened persistent opener -/
+def exProgs : Tid → List Action := fun t =>
+  [lockedSegs 0 [(0, 2), (4, 2)],
+   lockedWhole (copyLock true 0 1) true true 2 4,
+   [.acquire 0] ++ getFileobjPersist ++ lockedSegs 0 [(1, 3)] ++ [.release 0]].getD t []
+
+theorem exProgs_wf : ∀ t, wf 0 0 false (exProgs t) = true := by
+  intro t
+  match t with
+  | 0 => decide
+  | 1 => decide
+  | 2 => decide
+  | _ + 3 => rfl
+
+/-- a reachable state in the middle of a run: thread 0 holds the lock and is about to `seek 0; read 2`,
+    thread 1 has already been blocked once -/
+def exState : State := runS cexFile (State.init exProgs 1) [0, 1]
+
+theorem exState_reachable : Reachable 0 cexFile exState := ⟨exProgs, 1, fun _ => 0, [0, 1], exProgs_wf, rfl⟩
+
+-- inv_reachable / file_op_holds_lock: hypotheses hold for `exState`, thread 0, whose next action is a seek
+theorem exState_prog :
+    (exState.threads 0).prog = .seek 0 :: .read 2 :: (.release 0 :: lockedSegs 0 [(4, 2)]) := by decide
+example : exState.owner 0 = some 0 ∧ 1 ≤ exState.count 0 :=
+  file_op_holds_lock 0 cexFile exState exState_reachable 0 _ _ exState_prog rfl
+
+-- mutex_invariant: the other threads (1 and 2) run 5 steps between thread 0's seek and read
+example : (step cexFile (runS cexFile (step cexFile exState 0).1 [1, 2, 1, 2, 2]) 0).2 = .read 0 2 [10, 11] :=
+  (mutex_invariant 0 cexFile exState exState_reachable 0 0 2 _ exState_prog [1, 2, 1, 2, 2] (by decide)).2.2.2
+
+-- reads_decompose / reads_correct / reads_complete: a schedule with pre-emptions and blocked grants after
+-- which thread 0 has finished and has seen exactly its two segments
+example : ((runS cexFile (State.init exProgs 1) [0, 0, 1, 2, 0, 1, 0, 0, 1, 0, 2, 0, 0]).threads 0).prog = [] ∧
+    dataProj 0 (trace cexFile (State.init exProgs 1) [0, 0, 1, 2, 0, 1, 0, 0, 1, 0, 2, 0, 0]) =
+      [.seek 0, .read 2 [10, 11], .seek 4, .read 2 [14, 15]] := by decide
+
+-- concurrent_eq_single_threaded: its hypotheses hold for `exProgs`, t = 0, the schedule above and the
+-- sequential schedule of thread 0 alone
+example : ((runS cexFile (State.init (fun u => if u = 0 then exProgs 0 else []) 1)
+    [0, 0, 0, 0, 0, 0, 0, 0]).threads 0).prog = [] := by decide
+
+-- nibabel_reads_correct: pieces incl. a copy() read and the persistent opener
+example : (([Piece.openPersist, .segs true 5 [(0, 2), (4, 2)], .whole false 0 true true 2 4] : List Piece).flatMap
+    (Piece.events cexFile)) =
+    [.seek 0, .read 2 [10, 11], .seek 4, .read 2 [14, 15], .seekEnd, .tell 8, .seek 2, .read 4 [12, 13, 14, 15]] := by
+  decide
+
+-- solo_lockedWhole: its shape hypothesis on the continuation holds for a real continuation
+example : wf 0 0 false (lockedSegs 0 [(1, 3)]) = true := by decide
+
+-- with the lock in place the schedule of `no_lock_counterexample` is harmless: thread 1 is blocked
+example : dataProj 0 (trace cexFile (cexInit (lockedSegs 0 [(0, 2)]) (lockedSegs 0 [(4, 2)]))
+    [0, 0, 1, 0, 1, 0, 1, 1, 1, 1]) = [.seek 0, .read 2 [10, 11]] := by decide
 
 end Nb.C14
